@@ -18,6 +18,7 @@ pub fn info() -> PropInfo {
             "ring / jsonwebtoken signature verification is part of the trusted base",
         ],
         needs_mock: false,
+        rounds: 4,
     }
 }
 
